@@ -290,9 +290,10 @@ def run(ctx):
         if isinstance(t, tuple) and t[0] == 'agg' and 'Ok' in t[1] and 'chain' not in show(t, maxdepth=6) and 'collect' not in show(t, maxdepth=4):
             elem = _single_vec_elem(t)
             for g, k, sw in step.guard_terms(d[1]):
-                g = strip(g)
-                if isinstance(g, tuple) and g[0] == 'bin' and g[1] in ('Le', 'Lt') and opw.truth(k) is True:
-                    lhs, rhs = strip(g[2]), strip(g[3])
+                bd = util.as_bound(g, opw.truth(k))
+                if bd is not None:
+                    g = ('bin', 'Le' if bd[0] == 'le' else 'Lt', bd[1], bd[2])
+                    lhs, rhs = strip(bd[1]), strip(bd[2])
                     if isinstance(lhs, tuple) and lhs[0] == 'call' and cname(lhs[1]).endswith('transition_costs'):
                         same_next = elem is not None and strip(lhs[3]) == elem
                         start_ok = util.is_param(lhs[2], 2)
